@@ -943,7 +943,7 @@ def render(cmds, styles=None):
             kind = breaks.get(p)
             if kind == "bs":
                 out.append(line + " \\")
-                line = indent + "    " + toks[p]
+                line = st.get("cont_indent", indent + "    ") + toks[p]
             elif kind == "conn":
                 if st.get("seg_comments"):
                     line += "  " + st["seg_comments"]
@@ -982,6 +982,9 @@ def single_edits(cmds):
             yield "%s: line %r inserted before" % (head, pl), {i: dict(pre=[pl])}
         for p in range(1, len(toks)):
             yield "%s: backslash before token %d" % (head, p), {i: dict(breaks={p: "bs"})}
+        for p in range(1, len(toks)):
+            yield "%s: backslash+tab-indented continuation before token %d" % (head, p), \
+                {i: dict(breaks={p: "bs"}, cont_indent="\t")}
         for p in conn_positions(toks):
             yield "%s: newline before connective %d `%s`" % (head, p, toks[p]), {i: dict(breaks={p: "conn"})}
     if cmds:
@@ -999,6 +1002,8 @@ def all_at_once(cmds):
     yield "all: blank and comment lines before every command", {i: dict(pre=list(PRELINES)) for i in range(n)}
     yield "all: backslash at every token boundary", \
         {i: dict(breaks={p: "bs" for p in range(1, len(c["tokens"]))}) for i, c in enumerate(cmds)}
+    yield "all: backslash+tab-indented continuation at every token boundary", \
+        {i: dict(breaks={p: "bs" for p in range(1, len(c["tokens"]))}, cont_indent="\t") for i, c in enumerate(cmds)}
     yield "all: newline before every connective", \
         {i: dict(breaks={p: "conn" for p in conn_positions(c["tokens"])}) for i, c in enumerate(cmds)}
     comb = {}
